@@ -433,6 +433,34 @@ def c05_scenarios(seed, tier):
             rej = not (t == 1 and 8 <= pos < 32)
             out.append({"kind": "adss_scenario", "m": "010203", "r": "0405", "t": t, "n_shares": n, "fault_lo": pos, "fault_hi": pos + 1,
                         "fault_bytes": "", "flip": True, "must_reject": rej})
+    # several bytes of one field altered at once: the same xor mask on two / four bytes (adjacent, far
+    # apart), the whole field complemented, two bytes swapped — alterations that cancel in any
+    # comparison that folds the bytes (xor / sum) before testing
+    fields = {"threshold": (0, 4), "c": (60, 63), "d": (67, 69), "j": (69, 133)}
+    rnd = random.Random(seed)
+    for t, n in ((1, 1), (2, 2)):
+        for name, (lo, hi) in fields.items():
+            w = hi - lo
+            pats = []
+            for mask in (0x01, 0x80, 0xff):
+                for a, b in ((0, 1), (0, w - 1), (w // 2 - 1, w // 2)) + ((tuple(sorted(rnd.sample(range(w), 2))),) if w > 2 else ()):
+                    if a != b and 0 <= a < b < w:
+                        x = bytearray(w); x[a] = mask; x[b] = mask
+                        pats.append(bytes(x))
+                if w >= 4:
+                    x = bytearray(w)
+                    for i in (0, 1, w - 2, w - 1):
+                        x[i] = mask
+                    pats.append(bytes(x))
+                pats.append(bytes([mask]) * w)
+            if tier == "quick":
+                pats = pats[::2]
+            for x in pats:
+                out.append({"kind": "adss_scenario", "m": "010203", "r": "0405", "t": t, "n_shares": n, "fault_lo": lo, "fault_hi": lo,
+                            "fault_bytes": "", "xor": x.hex(), "must_reject": True, "nofix": True})
+            for a, b in ((lo, hi - 1), (lo, lo + 1)):
+                out.append({"kind": "adss_scenario", "m": "010203", "r": "0405", "t": t, "n_shares": n, "fault_lo": lo, "fault_hi": lo,
+                            "fault_bytes": "", "swap": [a, b], "must_reject": True, "nofix": True})
     for t in (1, 2, 3):
         out.append({"kind": "adss_mixed", "ma": "0a0b", "ra": "01", "mb": "0c0d0e", "rb": "02", "t": t, "rounds": 4 if tier == "quick" else 12})
     out.append({"kind": "adss_mixed", "ma": "0a0b", "ra": "01", "mb": "0a0b", "rb": "02", "t": 2, "rounds": 4})
